@@ -102,6 +102,7 @@ class TalGen:
         self.objs = []
         self.pool = (NAMES + COLLIDING) if colliding else NAMES
         self.stats = {}
+        self.loops = []
 
     def stat(self, k):
         self.stats[k] = self.stats.get(k, 0) + 1
@@ -151,6 +152,12 @@ class TalGen:
 
     def pexpr(self, scope, depth=2):
         r = self.rng.random()
+        if self.loops and 'repeatvars' in self.f and self.rng.random() < 0.35:
+            self.stat('repeatvar')
+            nm = self.rng.choice(self.loops)
+            attr = self.rng.choice(['index', 'number', 'length', 'start', 'end', 'odd', 'even', 'parity', 'letter', 'Letter', 'roman', 'Roman'])
+            form = self.rng.choice(["repeat.%s.%s", "repeat['%s'].%s", "repeat.%s.%s()"])
+            return form % (nm, attr)
         if depth <= 0 or r < 0.3:
             return self.name(scope) if self.rng.random() < 0.7 else self.lit()
         if r < 0.5:
@@ -222,6 +229,7 @@ class TalGen:
         rng = self.rng
         tag = rng.choice(TAGS)
         stmts = []
+        loop_name = None
         inner = dict(scope)
         avail = [s for s in ['define', 'condition', 'repeat', 'content', 'replace', 'omit', 'attributes', 'onerror', 'switch'] if s in self.f]
         chosen = [s for s in avail if rng.random() < 0.28]
@@ -261,10 +269,11 @@ class TalGen:
                 stmts.append(('tal:repeat', '(%s, %s) %s' % (n1, n2, rng.choice(["[(1, 2), (3, 4)]", "[('k', 'v')]", 'pairs', '[]']))))
                 inner[n1] = inner[n2] = 1
             else:
-                nm = rng.choice(self.pool)
+                nm = rng.choice(self.loops) if (self.loops and rng.random() < 0.3) else rng.choice(self.pool)
                 src = rng.choice(['xs', 'xs', '[1, 2]', "['a', 'b', 'c']", '[]', 'None', self.name(inner), "R('%s', xs)" % self.key()])
                 stmts.append(('tal:repeat', '%s%s %s' % (rng.choice(['', '', '', 'global ']), nm, src)))
                 inner[nm] = 1
+                loop_name = nm
         if is_switch:
             self.stat('switch')
             stmts.append(('tal:switch', rng.choice(['1', '2', "'a'", self.pexpr(inner, 1)])))
@@ -307,6 +316,8 @@ class TalGen:
         start = '<' + tag + ''.join(' %s="%s"' % (n, v) for n, v in allattrs)
         # children
         kids = []
+        if loop_name:
+            self.loops.append(loop_name)
         if depth > 0:
             for _ in range(rng.choice([0, 1, 1, 2, 3])):
                 if rng.random() < 0.45:
@@ -315,6 +326,8 @@ class TalGen:
                     kids.append(self.element(inner, depth - 1, in_switch=is_switch))
         else:
             kids.append(self.text(inner))
+        if loop_name:
+            self.loops.pop()
         if not kids and rng.random() < 0.3:
             return start + ' />'
         return start + '>' + ''.join(kids) + '</' + tag + '>'
